@@ -204,6 +204,15 @@ package internal
 //@   requires typeChecked-parallel-has-a-context-argument: len(call.Args) >= 1
 //@   at call Name 1 assume typeChecked-options-have-their-arguments: implies(ret == "Task" || ret == "Concurrency" || ret == "ContinueOnError" || ret == "WithEmitter" || ret == "InstrumentParallel", len(ce.Args) >= 1) && implies(ret == "Slice" || ret == "Map", len(ce.Args) >= 2)
 //@   at call compileInstrument 1 pre assume typeChecked-instrument-arity: len(arg1.Args) == 1
+//   every option of the directive is recorded in the compiled parallel
+//@   at store Concurrency 1 assert [C03,C15] the-concurrency-argument-is-recorded: val == ce.Args[0]
+//@   at store ContinueOnError 1 assert [C08,C15] the-continue-on-error-argument-is-recorded: val == ce.Args[0]
+//@   at store Emitters 1 assert [C18] the-emitter-argument-is-appended: len(val) >= 1 && val[len(val) - 1] == ce.Args[0]
+//@   at store Instrument 1 assert [C18] the-directives-instrument-is-recorded: val != nil
+//@   at store Ctx 1 assert [C09] the-context-argument-is-recorded: val == call.Args[0]
+//@   at store Tasks 1 assert [C10] a-compiled-task-is-appended: len(val) >= 1 && val[len(val) - 1] == t
+//@   at store SliceTasks 1 assert [C10] a-compiled-slice-is-appended: len(val) >= 1 && val[len(val) - 1] == st
+//@   at store MapTasks 1 assert [C10] a-compiled-map-is-appended: len(val) >= 1 && val[len(val) - 1] == mt
 //@   at call compileParallelTasks 1 assume compiled-tasks-are-non-nil: forall(i, int, implies(0 <= i && i < len(ret), ret[i] != nil))
 //@   loop 1 invariant collected-tasks-are-non-nil: $PAROK
 //@   loop 2 invariant [C14] slice-end-with-continue-on-error-reported-so-far: $PAROK && 0 <= idx2 && idx2 <= len(parallel.SliceTasks) && forall(i, int, implies(0 <= i && i < idx2 && parallel.SliceTasks[i].SliceEndFn != nil && parallel.ContinueOnError != nil, rs[i]))
@@ -285,6 +294,7 @@ package internal
 
 //@ func (*compiler).compileInstrument
 //@   option props=[C13]
+//@   ensures [C18] an-instrument-with-the-given-name-is-built: result != nil && result.Name == call.Args[0]
 //@   requires c != nil && call != nil
 //@   requires typeChecked-instrument-has-name: len(call.Args) == 1
 
@@ -478,6 +488,13 @@ package internal
 //@   at call compileTask 1 ghost dropped = dropped || ret == nil
 //@   ghost cyc bool = false
 //@   at call validateFlowCycles 1 ghost cyc = ret != nil
+//   every option of the directive is recorded in the compiled flow
+//@   at store Concurrency 1 assert [C03,C15] the-concurrency-argument-is-recorded: val == ce.Args[0]
+//@   at store Emitters 1 assert [C18] the-emitter-argument-is-appended: len(val) >= 1 && val[len(val) - 1] == ce.Args[0]
+//@   at store Instrument 1 assert [C18] the-flows-instrument-is-recorded: val != nil
+//@   at store Inputs 1 assert [C02,C15] each-accepted-params-value-is-appended: len(val) >= 1 && val[len(val) - 1] == in
+//@   at store Outputs 1 assert [C02,C07] each-accepted-results-target-is-appended: len(val) >= 1 && val[len(val) - 1] == output
+//@   at store Ctx 1 assert [C09] the-context-argument-is-recorded: val == call.Args[0]
 //@   ghost nT int = 0
 //@   ghost nP int = 0
 //@   at call compileTask 1 ghost nT = nT + ite(ret != nil, 1, 0)
